@@ -714,6 +714,9 @@ fn collections_history(prop: &'static str, rng: &mut Rng, it: usize, skip_refuse
             if lo > expect || hi.map(|h| h < expect).unwrap_or(false) {
                 fail(&["C17","C15"], &hist, format!("size_hint ({lo},{hi:?}) does not bracket {expect}"));
             }
+            if lo != expect || hi != Some(expect) {
+                fail(&["C15"], &hist, format!("size_hint ({lo},{hi:?}) of the collection is not exactly ({expect}, Some({expect}))"));
+            }
             // C12: total child polls <= pushes + wakes (+ self wakes counted as wakes)
             let total_polls: usize = children.iter().map(|c| c.polls.get()).sum();
             let self_wakes: usize = children.iter().filter(|c| c.self_wake.get()).map(|c| c.polls.get()).sum();
